@@ -19,6 +19,8 @@ every collection (entry of the next allocation) and at the end of the run:
   9. under the shipped byte threshold policy the byte count does not stay above the threshold for hundreds of allocations
      without a collection (also in phases that allocate no object at all); invariant 2 is additionally evaluated at the
      entry of every n-th allocation, not only after collections
+  10. between full collections the heap does not drift away from the live size: after any nursery collection under the
+     shipped threshold policy no more than 16 x (bytes alive at the latest full collection) + 1 MiB are in use
   8. a program that ends normally leaves no temporary root behind: the number of temporary roots at the end of
      the run equals the number right after VM start-up (natives push and pop them in pairs, also on error paths)
 """
@@ -43,7 +45,7 @@ GARBAGE = [
     "let it = [1, 2, 3].iter().map(|x| [x]).filter(|x| x.len() > 0).list();",
     "let bm = Item(i).describe; bm();",
     "let grown = []; for k in 9.times() { grown.push([k]); }",
-    "let parts = 'a,b,c,d'.split(','); let up = parts[0].up();",
+    "let parts = 'a,b,c,d'.split(',').list(); let up = parts[0].up();",
     "let boxed = 0; let inc = || { boxed = boxed + 1; boxed }; inc(); inc();",
     "let sorted = [3, 1, 2].sort(|a, b| { let t = [a, b]; a - b });",
     "class Local { init() { self.v = [1]; } get() { self.v } } Local().get();",
@@ -52,11 +54,26 @@ GARBAGE = [
     "try { [[1], [2]].iter().each(|x| { x.push(i); [][1]; }); } catch e: IndexError { let m = e.message; }",
 ]
 
+# a fixed set of mailboxes served round robin by the one long lived fiber: it uses more channels than any small window
+# remembers, and it uses each of them again and again
+MAILBOXES = "let slot = i * 5; for k in 4.times() { let n = slot + k; let box = mail[n - (n / 12).floor() * 12]; box <- n; <- box; }"
+
+# short lived objects of several kilobytes (a list grown to a few hundred elements, a string of several thousand bytes)
+BIG_GARBAGE = [
+    "let big = []; for k in 300.times() { big.push(k); }",
+    "let wide = 700.times().list(); wide.push(1);",
+    "let text = ''; for k in 70.times() { text = text + 'sixty four bytes of text that make this string long enough ......'; }",
+]
+
 CHANNEL_GARBAGE = "let ch = chan(2); ch <- [i, 'payload']; ch <- [i];"
 
 
-def churn_program(rng, kept, uniq, phases, with_channels=False):
+def churn_program(rng, kept, uniq, phases, with_channels=False, big=False):
     picks = rng.sample(GARBAGE, rng.randint(2, 7))
+    if rng.random() < 0.3:
+        picks.append(MAILBOXES)
+    if big:
+        picks += rng.sample(BIG_GARBAGE, rng.randint(1, 3))
     if with_channels:
         picks.append(CHANNEL_GARBAGE)
     body = " ".join("if true { %s }" % statement for statement in picks)
@@ -64,6 +81,7 @@ def churn_program(rng, kept, uniq, phases, with_channels=False):
         "class Item { init(i) { self.i = i; self.name = 'item'; self.data = [i, i]; } describe() { self.name } }",
         "class Pair { init(l, r) { self.left = l; self.right = r; } }",
         "fn garbage(i) { %s 1 }" % body,
+        "let mail = []; for k in 12.times() { mail.push(chan(1)); }",
         "let kept = [];",
         "for i in %d.times() { kept.push(Item(i)); }" % kept,
         "let uniq = [];",
@@ -75,7 +93,7 @@ def churn_program(rng, kept, uniq, phases, with_channels=False):
         "print(total, kept.len(), uniq.len());",
     ]
     # 'u' * 0 is not valid laythe, keep the line simple instead
-    lines[6] = "for i in %d.times() { uniq.push('unique-string-' + i.str()); }" % uniq
+    lines[7] = "for i in %d.times() { uniq.push('unique-string-' + i.str()); }" % uniq
     return {"name": "churn-loop", "main": workloads.MAIN, "files": {workloads.MAIN: "\n".join(lines) + "\n"},
             "garbage": picks}
 
@@ -112,6 +130,8 @@ class C20(Check):
             plan.append(("steady", number))
         for number in range(60 if tier == "quick" else 3000):
             plan.append(("nonobject", number))
+        for number in range(40 if tier == "quick" else 2000):
+            plan.append(("drift", number))
         return plan
 
     def runs(self, tier):
@@ -135,6 +155,12 @@ class C20(Check):
                     "uniq": rng.randint(0, 8), "phases": rng.randint(90, 140),
                     "nursery": rng.choice([None, 2, 8, 64]), "arena": schedules.random_policy(rng, 0.5),
                     "channels": False, "label": "churn-loop"}
+        if entry[0] == "drift":
+            # large short lived objects under the shipped threshold policy with a small first threshold: many nursery
+            # collections between full ones
+            return {"kind": "drift", "seed": rng.getrandbits(48), "kept": rng.randint(0, 12), "uniq": rng.randint(0, 8),
+                    "phases": rng.randint(250, 500), "threshold": rng.choice([1 << 15, 1 << 16, 1 << 18]),
+                    "arena": schedules.random_policy(rng, 0.5), "label": "churn-loop-big"}
         if entry[0] == "nonobject":
             # a phase that allocates no object at all (fibers, stacks, frames and waiters only; numbers as arguments): the
             # shipped byte threshold policy still has to collect, the dead fibers are garbage
@@ -164,7 +190,60 @@ class C20(Check):
     def judge(self, ctx, case):
         if case["kind"] == "steady":
             return self.judge_steady(ctx, case)
+        if case["kind"] == "drift":
+            return self.judge_drift(ctx, case)
         return self.judge_books(ctx, case)
+
+    def judge_drift(self, ctx, case):
+        """Invariant 10: between full collections the heap does not drift away from the live size. After a nursery
+        collection the runtime holds what the latest full collection found alive, what was promoted since (bounded by what
+        was alive at those few collections) and nothing else: more than sixteen times the live size plus 1 MiB means
+        garbage is being kept from one collection to the next."""
+        rng = core.rng_for(case["seed"], "program", 0)
+        program = case.get("program_override") or churn_program(rng, case["kept"], case["uniq"], case["phases"], False, True)
+        job = base_job(program, "drift")
+        job["gc"] = schedules.native(case["threshold"])
+        job["arena"] = case["arena"]
+        job["acct"] = True
+        job["final_gc"] = True
+        job["watch_from"] = self.startup
+        result = ctx.run(job)
+        outcome = {"jobs": 1, "violations": [], "signatures": [], "counters": {}}
+        counters = outcome["counters"]
+        if core.host_failure(result) or result["vmexit"] != "ok":
+            counters["invalid_workload"] = 1
+            return outcome
+        problems = self.monitor_problems(result)
+        last_full = None
+        worst = 0.0
+        nursery_after_full = 0
+        for sample in result["acct"]["samples"]:
+            if sample.get("sampled"):
+                continue
+            if sample["full"]:
+                last_full = sample["live_bytes"]
+            elif last_full is not None:
+                nursery_after_full += 1
+                worst = max(worst, sample["live_bytes"] / float(max(last_full, 1)))
+                if sample["live_bytes"] > 16 * last_full + (1 << 20):
+                    problems.append(("garbage survives from one collection to the next: the heap drifts away from the live size",
+                                     "%d bytes in use after the nursery collection at allocation %d, %d bytes were alive at the "
+                                     "latest full collection" % (sample["live_bytes"], sample["at"], last_full)))
+                    break
+        counters["drift_runs"] = 1
+        counters["drift_nursery_collections_after_a_full_one"] = nursery_after_full
+        counters["collections_full"] = sum(1 for point in result["fired"] if point[1] == 2)
+        counters["collections_nursery"] = sum(1 for point in result["fired"] if point[1] == 1)
+        counters["managed_allocations"] = result["allocs"]
+        counters["vm_instructions"] = result["steps"]
+        if nursery_after_full >= 5:
+            outcome["signatures"].append("drift|%x|%s" % (case["seed"], schedules.hash_points(result["fired"])))
+        for clause, detail in problems:
+            outcome["violations"].append({"clause": clause, "detail": "churn-loop-big (garbage %s): %s" % (program.get("garbage"), detail),
+                                          "case": copy.deepcopy(case)})
+        outcome["sample"] = {"program_head": program["files"][program["main"]][:400], "threshold": case["threshold"],
+                             "worst_ratio_to_live_size": round(worst, 2), "nursery_collections_judged": nursery_after_full}
+        return outcome
 
     def monitor_problems(self, result):
         """(clause, detail) pairs from the accounting monitor, the arena and the end of run checks"""
